@@ -108,3 +108,8 @@ Definition sends_justified (sites : list (N * N * N)) : bool :=
    section CFlagClose), 3 the maker closes its own channel once (protocol (b)), 5 reviewed; 0 none *)
 Definition closes_justified (sites : list (N * N * N)) : bool :=
   forallb (fun x => negb (N.eqb (snd x) 0)) sites.
+
+(* escaping values that share guarded memory: (site, justification): 2 the function re-makes the slice / map
+   before it takes the value, 3 it hands the memory over (stores a fresh value right after), 5 reviewed; 0 none *)
+Definition escapes_justified (sites : list (N * N)) : bool :=
+  forallb (fun x => negb (N.eqb (snd x) 0)) sites.
